@@ -206,7 +206,8 @@ fn c06_validate_enum_external() {
             mk_variant("c", VariantDetails::Simple),
         ],
     );
-    let bytes: [u8; 2] = kani::any();
+    // one `any()` per byte: Kani's concrete playback does not record a whole-array `any()`
+    let bytes: [u8; 2] = [kani::any(), kani::any()];
     let len: usize = kani::any();
     kani::assume(len <= 2);
     kani::assume(bytes[0] < 0x80 && bytes[1] < 0x80);
